@@ -26,7 +26,9 @@ fn implement_deserialize(field_infos: Vec<FieldInfo>) -> Vec<TokenStream> {
             verinfo.default_val,
         );
         let mut exists_version_which_needs_default_value = false;
-        if verinfo.ignore {
+        if verinfo.ignore || verinfo.version_to != std::u32::MAX {
+            // Ignored fields, and fields which stopped being serialized at some version
+            // (but which still exist in memory), need a default value.
             exists_version_which_needs_default_value = true;
         } else {
             for ver in 0..verinfo.version_from {
